@@ -74,9 +74,29 @@ def solve(assertions, timeout_s=30.0, logic=None, want_model=True, tactic=None):
     r = s.check()
     dt = time.time() - t0
     v = str(r)
+    _maybe_dump(s, v, dt)
     if v == "sat" and want_model:
         return v, dt, s.model()
     return v, dt, None
+
+
+_DUMP = {"n": 0}
+
+
+def _maybe_dump(s, verdict, secs):
+    """with VERIF_DUMP=<dir>, every VERIF_DUMP_EVERY-th decided query is written as SMT-LIB2 for the second-solver cross-check"""
+    import os
+
+    d = os.environ.get("VERIF_DUMP")
+    if not d or verdict == "unknown":
+        return
+    _DUMP["n"] += 1
+    if _DUMP["n"] % int(os.environ.get("VERIF_DUMP_EVERY", "25")) != 1:
+        return
+    os.makedirs(d, exist_ok=True)
+    with open(os.path.join(d, f"q{os.getpid()}_{_DUMP['n']}.smt2"), "w") as f:
+        f.write(f"; expected: {verdict}\n; z3-5.1 seconds: {secs:.3f}\n")
+        f.write(s.to_smt2())
 
 
 def model_values(b, model, arr):
